@@ -768,6 +768,10 @@ class Symex:
             return list(it.keys())
         if isinstance(it, _CountSeq):
             return it
+        if isinstance(it, _Iter):           # any other consumer drains the iterator
+            r = list(it)
+            it.clear()
+            return r
         if isinstance(it, (list, tuple, range, str, set, frozenset)):
             return it if isinstance(it, list) else list(it)
         if isinstance(it, T):
@@ -782,13 +786,14 @@ class Symex:
 
     def for_loop(self, s):
         it = self.ev(s.iter)
-        seq = self.iterate(it, s)
+        consume = isinstance(it, _Iter)      # an explicit iterator: a loop left by break/return keeps the rest for later
+        seq = it if consume else self.iterate(it, s)
         broke = False
         k = 0
         n = 0
         while k < len(seq):
-            x = seq[k]
-            k += 1
+            x = seq.pop(0) if consume else seq[k]
+            k += 0 if consume else 1
             n += 1
             if n > 4096:
                 self.unsupported(s, "loop bound exceeded")
@@ -2063,7 +2068,9 @@ class Symex:
             return out
         if name == "iter" and len(args) == 1 and not kw:
             # an iterator is a private list that next() / for-loops consume from the front
-            return list(self.iterate(args[0], node))
+            if isinstance(args[0], _Iter):
+                return args[0]
+            return _Iter(self.iterate(args[0], node))
         if name in ("any", "all") and len(args) == 1:
             vals = self.iterate(args[0], node)
             if any(isinstance(v, T) for v in vals):
@@ -2574,6 +2581,10 @@ class _DefaultDict(dict):
         for k, v in self.items():
             dict.__setitem__(c, k, copy.deepcopy(v, memo))
         return c
+
+
+class _Iter(list):
+    """iter(x): an explicit iterator object; for-loops, next() and every other consumer take elements from its front."""
 
 
 class _CountSeq(list):
